@@ -23,7 +23,7 @@ func init() {
 		Run: func(c *core.Ctx, idx int) {
 			r := c.Rand()
 			cfg := kmodel.AllConfigs[idx%len(kmodel.AllConfigs)]
-			w := map[string]int{"create": 10, "update": 5, "patch": 5, "delete": 9}
+			w := map[string]int{"create": 10, "update": 5, "patch": 5, "delete": 9, "deletewhere": 2}
 			runHistory(c, r, histOpts{Prefix: "C04", Cfg: cfg, NTx: 40, MaxOps: 3, Hostile: true, Weights: w,
 				AfterTx: func(e *kmodel.Engine, res *kmodel.TxResult, _, _ *dump.Dump) {
 					if !res.Committed {
